@@ -59,14 +59,21 @@ def extract_loop(func, ordinal=0):
     assigned = {n.id for n in ast.walk(fn) if isinstance(n, ast.Name) and isinstance(n.ctx, (ast.Store, ast.Del))}
     local_names = set(arg_names) | assigned
     body_mod = ast.Module(body=[_Exit().visit(s) for s in ast.parse(ast.unparse(ast.Module(body=loop.body, type_ignores=[]))).body], type_ignores=[])
+    # parameters = local names read before the body (definitely) assigns them, in statement order;
+    # a name first stored by an earlier statement of the body counts as assigned (a conditional store that
+    # is skipped at run time surfaces as UnboundLocalError, i.e. loudly, never as a silent wrong proof)
     loaded = []
-    for n in ast.walk(body_mod):
-        if isinstance(n, ast.Name) and isinstance(n.ctx, ast.Load) and n.id in local_names and n.id not in loaded:
-            loaded.append(n.id)
-    # augmented assignment targets are read too
-    for n in ast.walk(body_mod):
-        if isinstance(n, ast.AugAssign) and isinstance(n.target, ast.Name) and n.target.id not in loaded:
-            loaded.append(n.target.id)
+    stored = set()
+    for st in body_mod.body:
+        for n in ast.walk(st):
+            if isinstance(n, ast.AugAssign) and isinstance(n.target, ast.Name) and n.target.id in local_names \
+                    and n.target.id not in stored and n.target.id not in loaded:
+                loaded.append(n.target.id)
+            if isinstance(n, ast.Name) and isinstance(n.ctx, ast.Load) and n.id in local_names and n.id not in stored and n.id not in loaded:
+                loaded.append(n.id)
+        for n in ast.walk(st):
+            if isinstance(n, ast.Name) and isinstance(n.ctx, ast.Store):
+                stored.add(n.id)
     tgt = [n.id for n in ast.walk(loop.target) if isinstance(n, ast.Name)] if isinstance(loop, ast.For) else []
     params = loaded
     fdef = ast.parse(f"def __loop_body__({', '.join(params)}):\n    pass").body[0]
